@@ -187,6 +187,28 @@ Proof.
   - intros Hm. unfold out_recs. rewrite Hm. reflexivity.
 Qed.
 
+(* ------------------------------------------------------------------ *)
+(* messages with an optional tail (ChannelReestablish: the data-loss-protect fields and
+   the TLV extension are present or absent as a group): W = (fixed layout, tail tlvmsg) *)
+
+Theorem C10_optmsg_roundtrip : forall on_curve W v,
+  om_ok W = true -> valid_ov on_curve W v = true -> complete_ov W v = true ->
+  exists e, encode_om W v = Some e /\ decode_om on_curve W e = Some v.
+Proof. intros oc W v Hok. apply om_roundtrip. exact Hok. Qed.
+
+(* whatever Decode accepts is valid and ONE re-encode reaches a canonical fixpoint; a
+   present tail stays present, an absent one absent; the only loss is out_recs *)
+Theorem C10_optmsg_fixpoint : forall on_curve W b v,
+  om_ok W = true -> wf_bytes b -> decode_om on_curve W b = Some v ->
+  valid_ov on_curve W v = true /\
+  exists e, encode_om W v = Some e /\ decode_om on_curve W e = Some (out_ov W v) /\
+            encode_om W (out_ov W v) = Some e.
+Proof. intros oc W b v Hok. apply om_fixpoint. exact Hok. Qed.
+
+Theorem C10_gen_optmsgs_ok :
+  forallb (fun e => om_ok (snd e) && (fst e <? 65536)) gen_optmsgs = true.
+Proof. vm_compute. reflexivity. Qed.
+
 (* T1: the descriptions generated from lnwire's Encode/Decode methods satisfy
    the side conditions of the theorems above (computed) *)
 Theorem C10_gen_tlvmsgs_ok :
@@ -216,6 +238,22 @@ Theorem C10_failure_roundtrip : forall on_curve F code L vs p,
   valid_vs on_curve L vs = true -> encode_failure F code vs = Some p ->
   decode_failure on_curve F p = Some (code, vs) /\ blen p = 260.
 Proof. exact failure_roundtrip. Qed.
+
+(* ... and the same for the failure codes that embed a channel_update (TemporaryChannelFailure,
+   AmountBelowMinimum, FeeInsufficient, IncorrectCltvExpiry, ExpiryTooSoon, ChannelDisabled):
+   fixed fields, u16 length, optional 0x0102 type prefix, ChannelUpdate1 body U.  A valid value
+   (update absent only where the code allows it; update complete, i.e. known records only,
+   because ChannelUpdate1.Encode re-packs) encodes to a 260-byte packet that decodes back. *)
+Theorem C10_failure_update_roundtrip : forall on_curve U T code D v p,
+  tm_ok U = true -> lookup_fd T code = Some D -> fd_ok D = true -> code < 65536 ->
+  valid_fd on_curve U D v = true -> encode_failure_g U T code v = Some p ->
+  decode_failure_g on_curve U T p = Some (code, v) /\ blen p = 260.
+Proof. exact failure_g_roundtrip. Qed.
+
+Theorem C10_gen_fdescs_ok :
+  tm_ok gen_upd = true /\
+  forallb (fun e => fd_ok (snd e) && (fst e <? 65536)) gen_fdescs = true.
+Proof. split; vm_compute; reflexivity. Qed.
 
 (* T1: the generated failure-code table satisfies the side conditions *)
 Theorem C10_gen_failures_ok :
